@@ -87,6 +87,9 @@ def run(tier):
                 ("symmetric families under 60 renumberings x U, P in {2,3}; under 20 renumberings x M2, P in {2,3,4}, at most one non-default reduce outcome",
                  [["--families", FAMS_SYM, "--relabel", 60, "--alpha", "U", "--P", "2,3", "--bound", 0, "--outcome-bound", 0], ["--families", FAMS_SYM, "--relabel", 20, "--alpha", "M2", "--P", "2,3,4", "--bound", 0, "--outcome-bound", 1]]),
                 ("G(4) x A2 plus one more component = a single edge weighing 2^60, P in {2,3}, bound 1", [["--n", 4, "--alpha", "A2", "--plus-heavy-k2", "--P", "2,3", "--bound", 1]]),
+                ("sub-communicators (the entry points take a communicator, not the world): world split by rank parity, P in {2,3,4}, and every rank alone in its own communicator, P in {2,3}: G(4) x A2, bound 1; K6 x A2, mcb_sva_signed_mpi, P=4 split by parity",
+                 [["--n", 4, "--alpha", "A2", "--P", "2,3,4", "--bound", 1, "--subcomm", 1], ["--n", 4, "--alpha", "A2", "--P", "2,3", "--bound", 1, "--subcomm", 2],
+                  ["--families", "K:6", "--alpha", "A2", "--P", "4", "--variants", "signed_mpi", "--bound", 0, "--wchunks", 64, "--outcome-bound", 0, "--subcomm", 1]]),
                 ("K6 x A2 (32768 weightings; dense branch |S| >= n, ranks with empty slices), mcb_sva_signed_mpi, P=4, default outcome",
                  [["--families", "K:6", "--alpha", "A2", "--P", "4", "--variants", "signed_mpi", "--bound", 0, "--wchunks", 64, "--outcome-bound", 0]])]
     plan = quick_rows()
